@@ -245,8 +245,129 @@ func c10BodyCase(where string, body *ast.BlockStmt, tracked map[*ast.CallExpr]bo
 	return
 }
 
+// c10Grid: seed-independent two-level bodies — every outer breakable statement (labelled or not)
+// x every inner wrapper x every branch kind, and every pair of terminators in if/else with
+// closures / simple statements in front of them.
+func c10Grid() []*irFunc {
+	var out []*irFunc
+	mk := func(body ...*irStmt) {
+		out = append(out, &irFunc{Name: "F", Results: 1, Body: body})
+	}
+	st := func(k string) *irStmt { return &irStmt{K: k} }
+	closure := func() *irStmt { return &irStmt{K: "closure", Body: []*irStmt{st("call")}} }
+	terms := func() [][]*irStmt {
+		return [][]*irStmt{
+			{{K: "return", Ret: true}}, {st("panic")}, {{K: "for", Body: []*irStmt{st("call")}}},
+			{st("call")}, {st("panic"), st("empty")}, {{K: "block", Body: []*irStmt{st("panic")}}},
+		}
+	}
+	pres := func() [][]*irStmt { return [][]*irStmt{nil, {closure()}, {st("assign")}, {closure(), st("define")}} }
+	for i := range terms() {
+		for j := range terms() {
+			for p := range pres() {
+				for q := range pres() {
+					if (p+q)%2 == 1 && (i+j)%2 == 1 {
+						continue
+					}
+					th := append(append([]*irStmt{}, pres()[p]...), terms()[i]...)
+					el := append(append([]*irStmt{}, pres()[q]...), terms()[j]...)
+					for _, x := range th {
+						if x.K == "define" {
+							irVarCounter++
+							x.Name = fmt.Sprintf("v%d", irVarCounter)
+						}
+					}
+					for _, x := range el {
+						if x.K == "define" {
+							irVarCounter++
+							x.Name = fmt.Sprintf("v%d", irVarCounter)
+						}
+					}
+					mk(&irStmt{K: "if", Body: th, Else: &irStmt{K: "block", Body: el}})
+				}
+			}
+		}
+	}
+	// breaks: outer x inner wrapper x branch
+	inner := func(kind string, leaf *irStmt) *irStmt {
+		switch kind {
+		case "none":
+			return leaf
+		case "block":
+			return &irStmt{K: "block", Body: []*irStmt{leaf}}
+		case "if":
+			return &irStmt{K: "if", Body: []*irStmt{leaf}}
+		case "ifelse":
+			return &irStmt{K: "if", Body: []*irStmt{st("call")}, Else: &irStmt{K: "block", Body: []*irStmt{leaf}}}
+		case "for":
+			return &irStmt{K: "for", HasCond: true, Body: []*irStmt{leaf}}
+		case "forever":
+			return &irStmt{K: "for", Body: []*irStmt{leaf}}
+		case "range":
+			return &irStmt{K: "range", Body: []*irStmt{leaf}}
+		case "switch":
+			return &irStmt{K: "switch", HasTag: true, Clauses: []irClause{{Body: []*irStmt{leaf}}, {Default: true, Body: []*irStmt{st("call")}}}}
+		case "tswitch":
+			return &irStmt{K: "tswitch", Clauses: []irClause{{Body: []*irStmt{leaf}}, {Default: true, Body: []*irStmt{{K: "return", Ret: true}}}}}
+		case "select":
+			return &irStmt{K: "select", Clauses: []irClause{{Body: []*irStmt{leaf}}, {Default: true, Body: []*irStmt{st("call")}}}}
+		}
+		panic(kind)
+	}
+	for _, outer := range []string{"for", "switch", "tswitch", "select"} {
+		for _, labeled := range []bool{false, true} {
+			for _, ik := range []string{"none", "block", "if", "ifelse", "for", "forever", "range", "switch", "tswitch", "select"} {
+				for _, br := range []string{"break", "breakL", "continue", "continueL", "return", "panic", "call"} {
+					loop := outer == "for"
+					if (br == "continue" || br == "continueL") && !loop && ik != "for" && ik != "forever" && ik != "range" {
+						continue
+					}
+					if (br == "breakL" || br == "continueL") && !labeled {
+						continue
+					}
+					if br == "continueL" && !loop {
+						continue
+					}
+					var leaf *irStmt
+					switch br {
+					case "break":
+						leaf = st("break")
+					case "breakL":
+						leaf = &irStmt{K: "break", Label: "L1"}
+					case "continue":
+						leaf = st("continue")
+					case "continueL":
+						leaf = &irStmt{K: "continue", Label: "L1"}
+					case "return":
+						leaf = &irStmt{K: "return", Ret: true}
+					default:
+						leaf = st(br)
+					}
+					in := inner(ik, leaf)
+					var o *irStmt
+					switch outer {
+					case "for":
+						o = &irStmt{K: "for", Body: []*irStmt{in}}
+					case "switch":
+						o = &irStmt{K: "switch", Clauses: []irClause{{Body: []*irStmt{in, {K: "return", Ret: true}}}, {Default: true, Body: []*irStmt{st("panic")}}}}
+					case "tswitch":
+						o = &irStmt{K: "tswitch", Clauses: []irClause{{Default: true, Body: []*irStmt{in, {K: "return", Ret: true}}}}}
+					default:
+						o = &irStmt{K: "select", Clauses: []irClause{{Body: []*irStmt{in, {K: "return", Ret: true}}}, {Default: true, Body: []*irStmt{{K: "return", Ret: true}}}}}
+					}
+					if labeled {
+						o = &irStmt{K: "labeled", Label: "L1", Body: []*irStmt{o}}
+					}
+					mk(o)
+				}
+			}
+		}
+	}
+	return out
+}
+
 func runC10(a *runArgs) error {
-	nA, depthA, nB, nStd := 700, 3, 500, 250
+	nA, depthA, nB, nStd := 500, 3, 300, 200
 	if a.Tier == "thorough" {
 		nA, depthA, nB, nStd = 14000, 5, 8000, 100000
 	}
@@ -280,10 +401,17 @@ func runC10(a *runArgs) error {
 		nA, nB, nStd = len(replayA), 0, 0
 	}
 	// ---- stream A ----
+	var grid []*irFunc
+	if a.Replay == "" {
+		grid = c10Grid()
+		nA += len(grid)
+	}
 	for i := 0; i < nA; i++ {
 		var f *irFunc
 		if a.Replay != "" {
 			f = replayA[i].Fn
+		} else if i < len(grid) {
+			f = grid[i]
 		} else {
 			f = genIRFunc(r, "F", 1+r.Intn(depthA))
 		}
@@ -304,7 +432,11 @@ func runC10(a *runArgs) error {
 		cw.add(term)
 		cl.add(c)
 		note(term, strings.Contains(term, "SIf") || strings.Contains(term, "SFor") || strings.Contains(term, "SSwitch") || strings.Contains(term, "SSelect"))
-		m.Strata["A:builder"]++
+		if i < len(grid) {
+			m.Strata["A:grid"]++
+		} else {
+			m.Strata["A:builder"]++
+		}
 		m.Dist[fmt.Sprintf("A:missing=%d", min(obs.Missing, 2))]++
 		if len(obs.Unused) > 0 {
 			m.Dist["A:unused-label"]++
@@ -321,8 +453,16 @@ func runC10(a *runArgs) error {
 		idx++
 	}
 	// ---- stream B1: generated sources, parsed ----
+	if a.Replay == "" {
+		nB += len(grid)
+	}
 	for i := 0; i < nB; i++ {
-		f := genIRFunc(r, "F", 1+r.Intn(depthA+1))
+		var f *irFunc
+		if i < len(grid) {
+			f = grid[i]
+		} else {
+			f = genIRFunc(r, "F", 1+r.Intn(depthA+1))
+		}
 		f.Results = 1
 		src := f.source()
 		fset := token.NewFileSet()
